@@ -41,6 +41,7 @@ func genLibInput(r *Rand, format string, k int) []byte {
 	if format == "yaml-nopre" {
 		format = "yaml"
 	}
+	format = strings.TrimSuffix(format, "-reg")
 	switch format {
 	case "yaml", "json":
 		fs := GenMultiFiles(r, MultiOpts{MaxFiles: 1, MaxDocs: 3, Format: format, PlainOnly: r.Chance(1, 2)})
@@ -77,6 +78,23 @@ func genThemedLibJob(r *Rand, k int, allowLoad bool, theme string) LibJob {
 			j.InFmt, j.OutFmt = "yaml", "yaml"
 			j.Input = Bytes(rows.String())
 			j.Expr = Pick(r, []string{".rows | @csv", ".rows | @tsv", ".rows | to_csv"})
+			return j
+		}
+		if theme == "encoderprefs" {
+			// encoders (and decoders) built with different preferences, or taken from the format registry, side by side
+			j.API = Pick(r, []string{"stream", "stream", "all"})
+			j.InFmt = Pick(r, []string{"yaml", "yaml", "json", "yaml-reg", "json-reg", "xml-reg", "props-reg", "csv-reg", "lua-reg", "toml-reg"})
+			j.OutFmt = Pick(r, []string{"lua", "lua-prefix", "lua-globals", "lua-unquoted", "lua-reg", "yaml", "yaml-wrap", "yaml-reg", "json", "json-wrap", "json-reg",
+				"props", "props-sep", "props-reg", "csv", "csv-semi", "csv-reg", "xml", "xml-attr", "xml-reg", "shell", "shell-reg"})
+			j.Input = Bytes(genLibInput(r.Fork("in"), j.InFmt, k))
+			j.DecSlot, j.EncSlot = r.Intn(2), r.Intn(2)
+			if strings.HasPrefix(j.OutFmt, "csv") {
+				j.Expr = Pick(r, []string{".d", "[.d]", ".e | map(.k)", ".e"})
+			} else if j.InFmt == "yaml" || j.InFmt == "json" || j.InFmt == "yaml-reg" || j.InFmt == "json-reg" {
+				j.Expr = Pick(r, ExprThemes[theme])
+			} else {
+				j.Expr = Pick(r, []string{".", ".", FormatByName(strings.TrimSuffix(j.InFmt, "-reg")).IDPath})
+			}
 			return j
 		}
 		if theme == "loadshared" {
@@ -133,7 +151,7 @@ func genThemedLibJob(r *Rand, k int, allowLoad bool, theme string) LibJob {
 	j := LibJob{ErrAt: -1}
 	j.API = Pick(r, []string{"stream", "stream", "stream", "stream", "all", "all", "string", "stringall", "stream"})
 	j.InFmt = Pick(r, []string{"yaml", "yaml", "yaml", "yaml", "yaml", "json", "json", "props", "csv", "xml", "toml", "lua"})
-	j.OutFmt = Pick(r, []string{"yaml", "yaml", "yaml", "json", "json0", "json0", "props", "xml", "xml"})
+	j.OutFmt = Pick(r, []string{"yaml", "yaml", "yaml", "json", "json0", "json0", "props", "xml", "xml", "lua", "yaml-reg", "json-reg", "lua-prefix", "shell"})
 	if r.Chance(1, 6) {
 		// yaml decoder without header pre-processing, sometimes on a comment-only input
 		j.InFmt = "yaml-nopre"
@@ -406,6 +424,35 @@ func maskStderr(b []byte) string {
 	return s
 }
 
+// sameStderr: equal after masking clock, sandbox path, temp names and addresses.
+// When both runs were aborted by the Go runtime (a C11 matter: panic or fatal
+// error) the dump that follows is the runtime's, not yq's - allocation sizes,
+// the goroutine that noticed, GC worker states - and only the kind of abort
+// and what yq wrote before it are compared.
+func sameStderr(a, b *Outcome) bool {
+	ca, _ := a.Crashed()
+	cb, _ := b.Crashed()
+	if ca != cb {
+		return false
+	}
+	if !ca {
+		return maskStderr(a.Stderr) == maskStderr(b.Stderr)
+	}
+	head := func(o *Outcome) string {
+		s := string(o.Stderr)
+		cut := len(s)
+		for _, m := range []string{"panic: ", "fatal error: ", "runtime: "} {
+			if i := strings.Index(s, m); i >= 0 && i < cut {
+				cut = i
+			}
+		}
+		return maskStderr([]byte(s[:cut]))
+	}
+	classA, _ := PanicSite(string(a.Stderr))
+	classB, _ := PanicSite(string(b.Stderr))
+	return classA == classB && head(a) == head(b)
+}
+
 var siblingTempRe = regexp.MustCompile(`\.yq-tmp-\d+`)
 
 func filesDigest(m map[string]FileState) string {
@@ -462,7 +509,7 @@ func (C18) Judge(c *Ctx, sc *Scenario) []Violation {
 				what = "exit"
 			case filesDigest(o.Files) != filesDigest(base.Files):
 				what = "files"
-			case maskStderr(o.Stderr) != maskStderr(base.Stderr):
+			case !sameStderr(o, base):
 				what = "stderr"
 			case len(o.TmpLeft) != len(base.TmpLeft):
 				what = "tempfiles"
